@@ -205,3 +205,59 @@ Proof.
   induction es as [|x es IH]; intros pos0 pos len e H; cbn [layout] in H; [destruct H|].
   destruct H as [H|H]; [inversion H; subst; lia|]. specialize (IH _ _ _ _ H). lia.
 Qed.
+
+(* ---------- hint files ---------- *)
+Theorem dec_hint_prefix h p q : wf_hint h -> q <> [] -> enc_hint h = p ++ q -> dec_hint p = DEof.
+Proof.
+  destruct h as [ts len pos k]. intros (Ht & Hl & Hp & Hk) Hq E. cbn [h_ts h_len h_pos h_key] in *. unfold enc_hint in E. cbn [h_ts h_len h_pos h_key] in E.
+  unfold dec_hint.
+  apply app_eq_app_cases in E as [(q1 & Hq1 & Ha & _)|(p2 & -> & E2)].
+  { rewrite (dec_i64_prefix _ _ _ Hq1 Ha). reflexivity. }
+  rewrite dec_i64_enc by exact Ht.
+  apply app_eq_app_cases in E2 as [(q1 & Hq1 & Ha & _)|(p3 & -> & E3)].
+  { rewrite (dec_u64_prefix _ _ _ Hq1 Ha). reflexivity. }
+  rewrite dec_u64_enc by exact Hl.
+  apply app_eq_app_cases in E3 as [(q1 & Hq1 & Ha & _)|(p4 & -> & E4)].
+  { rewrite (dec_u64_prefix _ _ _ Hq1 Ha). reflexivity. }
+  rewrite dec_u64_enc by exact Hp.
+  rewrite (dec_bytes_prefix k p4 q Hk Hq E4). reflexivity.
+Qed.
+
+Fixpoint hint_bytes (hs : list hint) : bytes :=
+  match hs with [] => [] | h :: hs' => enc_hint h ++ hint_bytes hs' end.
+
+Fixpoint hint_layout (pos : N) (hs : list hint) : list (N * N * hint) :=
+  match hs with [] => [] | h :: hs' => (pos, hint_size h, h) :: hint_layout (pos + hint_size h) hs' end.
+
+Lemma scan_fuel_hints : forall hs fuel pos tail,
+  Forall wf_hint hs -> dec_hint tail = DEof -> (length hs < fuel)%nat ->
+  scan_fuel dec_hint fuel pos (hint_bytes hs ++ tail) = Some (hint_layout pos hs).
+Proof.
+  induction hs as [|h hs IH]; intros fuel pos tail Hwf Ht Hf; cbn [hint_bytes hint_layout app].
+  - destruct fuel as [|fuel]; [cbn in Hf; lia|]. cbn [scan_fuel]. rewrite Ht. reflexivity.
+  - destruct fuel as [|fuel]; [cbn in Hf; lia|]. cbn [scan_fuel]. inversion Hwf as [|? ? He Hes]; subst.
+    rewrite <- app_assoc, dec_hint_enc by exact He.
+    rewrite !blen_app. replace (blen (enc_hint h) + (blen (hint_bytes hs) + blen tail) - (blen (hint_bytes hs) + blen tail)) with (hint_size h)
+      by (rewrite enc_hint_size; lia).
+    rewrite IH; [reflexivity|exact Hes|exact Ht|cbn [length] in Hf; lia].
+Qed.
+
+Lemma hint_bytes_length hs : (length hs <= length (hint_bytes hs))%nat.
+Proof.
+  induction hs as [|h hs IH]; cbn [hint_bytes length]; [lia|]. rewrite app_length.
+  assert (32 <= blen (enc_hint h)) by (rewrite enc_hint_size; unfold hint_size; lia). unfold blen in H. lia.
+Qed.
+
+(* scanning a hint file, whole or with its last entry torn at any byte, yields its complete entries *)
+Theorem scan_hint_file hs : Forall wf_hint hs -> scan dec_hint (hint_bytes hs) = Some (hint_layout 0 hs).
+Proof.
+  intros H. unfold scan. rewrite <- (app_nil_r (hint_bytes hs)) at 2.
+  apply scan_fuel_hints; [exact H|reflexivity|]. pose proof (hint_bytes_length hs). lia.
+Qed.
+
+Theorem scan_torn_hint_file hs h p q : Forall wf_hint hs -> wf_hint h -> q <> [] -> enc_hint h = p ++ q ->
+  scan dec_hint (hint_bytes hs ++ p) = Some (hint_layout 0 hs).
+Proof.
+  intros H Hh Hq E. unfold scan. apply scan_fuel_hints; [exact H|exact (dec_hint_prefix h p q Hh Hq E)|].
+  pose proof (hint_bytes_length hs). rewrite app_length. lia.
+Qed.
